@@ -116,6 +116,11 @@ pub fn dedent(s: &str) -> String {
     // We then continue looking through the remaining lines to
     // possibly shorten the prefix.
     for line in &mut lines {
+        if line.chars().all(|c| c.is_whitespace()) {
+            // Whitespace-only lines do not influence the prefix.
+            continue;
+        }
+
         let mut whitespace_idx = line.len();
         for ((idx, a), b) in line.char_indices().zip(prefix.chars()) {
             if a != b {
